@@ -271,7 +271,7 @@ def classify(out):
 
 def panic_where(detail):
     loc = detail.split(" at ", 1)[1].split(" : ")[0] if " at " in detail else "?"
-    return loc.replace("/repo/", "").rsplit(":", 1)[0]
+    return loc.replace(core.REPO + "/", "").replace("/repo/", "").rsplit(":", 1)[0]
 
 
 def oracle(plan, out):
